@@ -139,5 +139,164 @@ theorem step_deq_nil (s : State α) (h : s.items = []) : step s .deq = (s, .item
 theorem step_deq_cons (s : State α) (y : Item α) (ys : List (Item α)) (h : s.items = y :: ys) :
     step s .deq = ({ s with items := ys }, .item (some y.val)) := by
   simp [step, h]
+/-! ## What the specification says in plain words -/
+
+/-- Invariant of the specification: strictly sorted, all insertion indices below the counter. -/
+structure SInv (st : State α) : Prop where
+  sorted : Sorted st.items
+  bound  : ∀ it ∈ st.items, it.idx < st.insertionCount
+
+theorem sinv_init : SInv (init : State α) := ⟨by simp [init, Sorted], by simp [init]⟩
+
+theorem step_sinv (st : State α) (op : Op α) (h : SInv st) : SInv (step st op).1 := by
+  cases op with
+  | enq x prio =>
+    by_cases hc : st.closed = true
+    · rw [step_enq_closed _ _ _ hc]; exact h
+    · rw [step_enq_open _ _ _ (by simpa using hc)]
+      constructor
+      · apply insert_sorted _ _ h.sorted
+        intro y hy; have := h.bound y hy; simp; omega
+      · intro it hit
+        rcases mem_insert.mp hit with rfl | hit
+        · exact Nat.lt_succ_self _
+        · exact Nat.lt_succ_of_lt (h.bound it hit)
+  | deq =>
+    cases hi : st.items with
+    | nil => rw [step_deq_nil _ hi]; exact h
+    | cons y ys =>
+      rw [step_deq_cons _ _ _ hi]
+      have hs := h.sorted; have hb := h.bound
+      rw [hi] at hs hb
+      exact ⟨(List.pairwise_cons.mp hs).2, fun it hit => hb it (List.mem_cons_of_mem _ hit)⟩
+  | len => exact h
+  | values => exact h
+  | purge => exact ⟨by simp [step, Sorted], by simp [step]⟩
+  | close => exact ⟨h.sorted, h.bound⟩
+
+theorem run_sinv (st : State α) (ops : List (Op α)) (h : SInv st) : SInv (run st ops).1 := by
+  induction ops generalizing st with
+  | nil => exact h
+  | cons op ops ih => exact ih _ (step_sinv st op h)
+
+/-- `Dequeue` on the specification: the returned value belongs to the pending item with the
+*smallest priority*, and among the pending items of that priority to the one with the *smallest
+insertion index*, i.e. the one accepted first; exactly that item is removed.  `none` is returned only
+when nothing is pending (`deq_none_iff`). -/
+theorem deq_is_min_then_fifo (st st' : State α) (v : α) (h : SInv st)
+    (hstep : step st .deq = (st', .item (some v))) :
+    ∃ it : Item α, it.val = v ∧ st.items = it :: st'.items ∧
+      (∀ z ∈ st'.items, it.prio < z.prio ∨ (it.prio = z.prio ∧ it.idx < z.idx)) ∧
+      (∀ z ∈ st.items, it.prio ≤ z.prio ∧ (z.prio = it.prio → it.idx ≤ z.idx)) := by
+  cases hi : st.items with
+  | nil => rw [step_deq_nil _ hi] at hstep; simp at hstep
+  | cons y ys =>
+    rw [step_deq_cons _ _ _ hi] at hstep
+    have h1 : st' = { st with items := ys } := (congrArg Prod.fst hstep).symm
+    have h2 : y.val = v := by
+      have := congrArg Prod.snd hstep; simpa using this
+    have hs := h.sorted
+    rw [hi, Sorted, List.pairwise_cons] at hs
+    subst h1
+    refine ⟨y, h2, rfl, ?_, ?_⟩
+    · intro z hz; exact (less_iff y z).mp (hs.1 z hz)
+    · intro z hz
+      rcases List.mem_cons.mp hz with rfl | hz
+      · exact ⟨Int.le_refl _, fun _ => Nat.le_refl _⟩
+      · have := (less_iff y z).mp (hs.1 z hz); omega
+
+theorem deq_none_iff (st : State α) : (step st .deq).2 = .item none ↔ st.items = [] := by
+  cases hi : st.items with
+  | nil => simp [step_deq_nil _ hi]
+  | cons y ys => simp [step_deq_cons _ _ _ hi]
+
+/-! ## Trace-level FIFO for equal priorities -/
+
+/-- Inserting an item that nothing in `l` is after appends it. -/
+theorem insert_eq_append (x : Item α) (l : List (Item α)) (h : ∀ y ∈ l, less x y = false) :
+    insert x l = l ++ [x] := by
+  induction l with
+  | nil => rfl
+  | cons y ys ih =>
+    have hy := h y List.mem_cons_self
+    simp only [insert, hy, Bool.false_eq_true, if_false, List.cons_append]
+    rw [ih (fun z hz => h z (List.mem_cons_of_mem _ hz))]
+
+/-- The items created by accepting `xs` with priority `p`, starting at counter value `c`. -/
+def stamp (p : Int) : Nat → List α → List (Item α)
+  | _, []      => []
+  | c, x :: xs => ⟨x, p, c⟩ :: stamp p (c + 1) xs
+
+theorem run_enqs (p : Int) (xs : List α) (st : State α) (hc : st.closed = false)
+    (hp : ∀ y ∈ st.items, y.prio = p ∧ y.idx < st.insertionCount) :
+    run st (xs.map (fun x => Op.enq x p)) =
+      ({ st with items := st.items ++ stamp p st.insertionCount xs,
+                 insertionCount := st.insertionCount + xs.length },
+       xs.map (fun _ => Out.bool true)) := by
+  induction xs generalizing st with
+  | nil => simp [run, stamp]
+  | cons x xs ih =>
+    simp only [List.map_cons, run]
+    rw [step_enq_open _ _ _ hc]
+    have hins : insert ⟨x, p, st.insertionCount⟩ st.items = st.items ++ [⟨x, p, st.insertionCount⟩] := by
+      apply insert_eq_append
+      intro y hy
+      have := hp y hy
+      rw [← Bool.not_eq_true, less_iff]; simp; omega
+    rw [hins]
+    dsimp only
+    rw [ih ⟨st.items ++ [(⟨x, p, st.insertionCount⟩ : Item α)], st.insertionCount + 1, st.closed⟩ hc]
+    · simp [stamp, Nat.add_assoc, Nat.add_comm 1]
+    · intro y hy
+      simp only [List.mem_append, List.mem_singleton] at hy
+      rcases hy with hy | rfl
+      · have := hp y hy; exact ⟨this.1, Nat.lt_succ_of_lt this.2⟩
+      · exact ⟨rfl, Nat.lt_succ_self _⟩
+
+theorem run_deqs (st : State α) (n : Nat) (hn : st.items.length = n) :
+    run st (List.replicate n Op.deq) =
+      ({ st with items := [] }, st.items.map (fun y => Out.item (some y.val))) := by
+  induction n generalizing st with
+  | zero =>
+    have : st.items = [] := List.eq_nil_of_length_eq_zero hn
+    simp [run, this]; cases st; simp_all
+  | succ n ih =>
+    cases hi : st.items with
+    | nil => rw [hi] at hn; simp at hn
+    | cons y ys =>
+      simp only [List.replicate_succ, run]
+      rw [step_deq_cons _ _ _ hi, ih _ (by rw [hi] at hn; simpa using hn)]
+      simp
+
+theorem run_append (st : State α) (ops₁ ops₂ : List (Op α)) :
+    run st (ops₁ ++ ops₂) =
+      ((run (run st ops₁).1 ops₂).1, (run st ops₁).2 ++ (run (run st ops₁).1 ops₂).2) := by
+  induction ops₁ generalizing st with
+  | nil => simp [run]
+  | cons op ops ih => simp [run, ih]
+
+theorem stamp_map_out (p : Int) (c : Nat) (xs : List α) :
+    (stamp p c xs).map (fun y => Out.item (some y.val)) = xs.map (fun x => Out.item (some x)) := by
+  induction xs generalizing c with
+  | nil => rfl
+  | cons x xs ih => simp [stamp, ih]
+
+theorem length_stamp (p : Int) (c : Nat) (xs : List α) : (stamp p c xs).length = xs.length := by
+  induction xs generalizing c with
+  | nil => rfl
+  | cons x xs ih => simp [stamp, ih]
+
+/-- On the specification: starting from an open, empty queue (any counter value, e.g. after
+`Purge`), enqueueing `xs` with one priority `p` and dequeueing `|xs|` times returns `xs` in order. -/
+theorem fifo_same_priority (st : State α) (hc : st.closed = false) (he : st.items = [])
+    (p : Int) (xs : List α) :
+    (run st (xs.map (fun x => Op.enq x p) ++ List.replicate xs.length Op.deq)).2 =
+      xs.map (fun _ => Out.bool true) ++ xs.map (fun x => Out.item (some x)) := by
+  rw [run_append, run_enqs p xs st hc (by simp [he])]
+  simp only [he, List.nil_append]
+  rw [run_deqs _ _ (by simp [length_stamp])]
+  simp only
+  rw [stamp_map_out]
+
 end SortedQueue
 end VarmqVerif
